@@ -799,6 +799,7 @@ class Text(JupyterMixin):
                         "style must not be set when appending Text instance"
                     )
                 text_length = self._length
+                text_spans = text._spans[:]  # (text may be self)
                 if text.style is not None:
                     self._spans.append(
                         _Span(text_length, text_length + len(text), text.style)
@@ -806,7 +807,7 @@ class Text(JupyterMixin):
                 self._text.append(text.plain)
                 self._spans.extend(
                     _Span(start + text_length, end + text_length, style)
-                    for start, end, style in text._spans
+                    for start, end, style in text_spans
                 )
                 self._length += len(text)
         return self
@@ -820,12 +821,13 @@ class Text(JupyterMixin):
         """
         _Span = Span
         text_length = self._length
+        text_spans = text._spans[:]  # (text may be self)
         if text.style is not None:
             self._spans.append(_Span(text_length, text_length + len(text), text.style))
         self._text.append(text.plain)
         self._spans.extend(
             _Span(start + text_length, end + text_length, style)
-            for start, end, style in text._spans
+            for start, end, style in text_spans
         )
         self._length += len(text)
         return self
